@@ -95,8 +95,8 @@ harnesses! {
     fn c08_q_try_from_dna_k33_u128 [4] { kmer_try_from!(Dna, 33, u128, 96, 3) }
     fn c08_q_try_from_dna_k64_u128 [8] { kmer_try_from!(Dna, 64, u128, 192, 6) }
     fn c08_t_try_from_iupac_k16 [4] { kmer_try_from!(Iupac, 16, usize, 48, 3) }
-    fn c08_t_try_from_iupac_k32_u128 [4] { kmer_try_from!(Iupac, 32, u128, 64, 4) }
-    fn c08_t_try_from_amino_k21_u128 [4] { kmer_try_from!(Amino, 21, u128, 42, 4) }
+    fn c08_t_try_from_iupac_k32_u128 [6] { kmer_try_from!(Iupac, 32, u128, 64, 4) }
+    fn c08_t_try_from_amino_k21_u128 [6] { kmer_try_from!(Amino, 21, u128, 42, 4) }
     fn c08_t_try_from_text_k8 [4] { kmer_try_from!(text::Dna, 8, usize, 24, 3) }
     fn c08_t_try_from_dna_k1 [4] { kmer_try_from!(Dna, 1, usize, 64, 2) }
     fn c08_t_try_from_dna_k31 [4] { kmer_try_from!(Dna, 31, usize, 96, 3) }
